@@ -313,20 +313,39 @@ def check_conversion(ctx, W, S0, plan, final_seq, agents, validate, ops, reuse=N
     # domain and problem objects: each must get what it gets alone
     if not fixture and ctx.s("cfg").chance(1, 5) and len(agents) >= 2:
         orders = [list(agents), list(reversed(agents))]
-        alone = []
-        for o in orders:
-            alone.append([[("nop" if a.name == "nop" else (a.name, tuple(a.parameters))) for a in ja.actions]
-                          for ja in PlanConverter(d).convert_plan(p, path, list(o), should_validate_concurrency_constraint=validate)])
-
         shared_conv = PlanConverter(d) if ctx.s("cfg").chance(1, 2) else None  # one converter for both threads, or one each
+        # the second thread may work on ANOTHER problem of the same domain (the same one plus an object nobody mentions):
+        # whatever a conversion needs to know about its problem must not be visible to the other one
+        probs = [p, p]
+        types_ = [ty for ty in W.D["types"] if ty != "agent" and ty not in W.D.get("implicit_types", ())]
+        if types_ and ctx.s("cfg").chance(1, 2):
+            import copy
+            Wb = copy.copy(W)
+            Wb.P = dict(W.P, objects={**W.P["objects"], "znew": types_[ctx.s("cfg").draw(len(types_))]})
+            try:
+                probs[1] = C.parse_problem(ctx, Wb.problem_text(S0), d, "problem-other.pddl")
+                ctx.probes["threads_on_two_problems"] += 1
+            except Exception:
+                probs[1] = p
 
-        def mk(o):
-            return lambda: [[("nop" if a.name == "nop" else (a.name, tuple(a.parameters))) for a in ja.actions]
-                            for ja in (shared_conv or PlanConverter(d)).convert_plan(
-                                p, path, list(o), should_validate_concurrency_constraint=validate)]
-        results, switches = C.concurrent(ctx, [mk(o) for o in orders])
+        def conv_once(cv, pr, o):
+            try:
+                return ("ok", [[("nop" if a.name == "nop" else (a.name, tuple(a.parameters))) for a in ja.actions]
+                               for ja in cv.convert_plan(pr, path, list(o), should_validate_concurrency_constraint=validate)])
+            except Exception as e:
+                return ("exc", type(e).__name__)
+        alone = [conv_once(PlanConverter(d), pr, o) for pr, o in zip(probs, orders)]
+
+        def mk(pr, o):
+            def thunk():
+                r = conv_once(shared_conv or PlanConverter(d), pr, o)
+                if r[0] == "exc":
+                    raise RuntimeError(r[1])
+                return r[1]
+            return thunk
+        results, switches = C.concurrent(ctx, [mk(pr, o) for pr, o in zip(probs, orders)])
         for o, r, a in zip(orders, results, alone):
-            if r != ("ok", a):
+            if (r[0], r[1] if r[0] == "ok" else None) != (a[0], a[1] if a[0] == "ok" else None):
                 raise Violation("C15/concurrent-conversion-differs", site,
                                 f"agents={o}: two threads converting at once got {C.short(r, 200)}, alone {C.short(a, 200)}")
         ctx.probes["threaded_checked"] += 1
